@@ -64,6 +64,11 @@ type vhnlScenario struct {
 	// Extra live nodes (n3, n4, ...) besides the three the listeners know: with five or more peers a leaving node does
 	// not notify everybody itself (Leave stops after the 4th acknowledgement), the rest must follow through gossip.
 	Extra int `json:"extra"`
+	// Rebalance: every node runs the upstream rebalance loop (threshold 5.0: enabled, never triggered by these loads)
+	Rebalance bool `json:"rebalance"`
+	// InflightAtLost: in the inflight phase slow requests also ENTER at the node that is going to be lost, for endpoints whose
+	// listeners sit on the survivors (they keep the departing node's proxy busy for delay_ms, whatever happens to its upstreams)
+	InflightAtLost bool `json:"inflight_at_lost"`
 }
 
 type vhnlRNode struct {
@@ -254,6 +259,11 @@ func vhnlStartNode(id string, join []string, sc vhnlScenario) *vhnlNode {
 	conf.Cluster.Gossip.BindAddr = "127.0.0.1:0"
 	conf.Cluster.Gossip.Interval = time.Duration(sc.GossipMs) * time.Millisecond
 	conf.GracePeriod = time.Duration(sc.GraceMs) * time.Millisecond
+	if sc.Rebalance {
+		conf.Upstream.Rebalance.Threshold = 5.0
+		conf.Upstream.Rebalance.ShedRate = 0.1
+		conf.Upstream.Rebalance.MinConns = 1000
+	}
 	srv, err := NewServer(conf, log.NewNopLogger())
 	if err != nil {
 		panic("new server: " + err.Error())
@@ -838,7 +848,27 @@ func vhnlRun(sc vhnlScenario) (obs vhnlObs) {
 				}(s, e.ID)
 			}
 		}
-		time.Sleep(delay + 50*time.Millisecond) // let the first slow requests be on their way
+		if sc.InflightAtLost {
+			for _, e := range sc.Endpoints {
+				onSurvivor := false
+				for _, li := range e.Listeners {
+					if li != sc.Lose {
+						onSurvivor = true
+					}
+				}
+				if !onSurvivor {
+					continue
+				}
+				bg.Add(1)
+				go func(ep string) {
+					defer bg.Done()
+					rq.do("inflight-at-lost", lost, ep, true)
+				}(e.ID)
+			}
+			time.Sleep(100 * time.Millisecond)
+		} else {
+			time.Sleep(delay + 50*time.Millisecond) // let the first slow requests be on their way
+		}
 	}
 
 	// ---- the loss
